@@ -50,6 +50,7 @@ package certstore
 
 //@ func (*Store).GetRange
 //@   property C09
+//@   requires end < 18446744073709551615
 //@   modifies auto
 //@   maypanic
 //@   ensures[complete_range_or_not_found] result1 == nil ==> len(result0) == end - start + 1
@@ -97,6 +98,7 @@ package certstore
 //@   property C09, C10
 //@   modifies auto
 //@   maypanic
+//@   ensures result1 == nil ==> result0 != nil && result0.powerTableFrequency == 1440
 //@   at writeInstanceNumber 1
 //@     before[marker_written_after_the_initial_table] dominatedBy(putPowerTable, 1) && res(putPowerTable, 1) == nil && arg(2) == certStoreFirstKey && arg(3) == firstInstance
 //@          && argOf(putPowerTable, 1, 2) == firstInstance && argOf(putPowerTable, 1, 3) == initialPowerTable
@@ -138,3 +140,71 @@ package certstore
 //@   at readInstanceNumber 1
 //@     before[an_interrupted_wipe_is_resumed_on_the_stores_own_datastore] (dominatedBy(maybeContinueDelete, 1) && argOf(maybeContinueDelete, 1, 1) == cs.ds && res(maybeContinueDelete, 1) == nil)
 //@          || (dominatedBy(maybeContinueDelete, 2) && argOf(maybeContinueDelete, 2, 1) == cs.ds && res(maybeContinueDelete, 2) == nil)
+
+// ---------------------------------------------------------------------------------------------------------------
+// C17: snapshots.
+
+//@ func io.ReadFull
+//@   trusted io.ReadFull fills the whole buffer or returns an error
+//@   modifies buf[]
+//@   ensures err == nil ==> n == len(buf)
+//@   ensures 0 <= n && n <= len(buf)
+
+// A block is read only if its announced length can be allocated; a block that is cut short is an error and is never
+// mistaken for the clean end of the stream.
+//@ func readSnapshotBlockBytes
+//@   property C17
+//@   harness harness/snapshot_hugeblock_test.go
+//@   modifies auto
+//@   at return 0
+//@     before[a_cut_block_is_never_a_clean_end_of_stream] dominatedBy(ReadUvarint, 1) && (arg(1) == io.EOF ==> arg(1) == res(ReadUvarint, 1, 1))
+//@     before[a_block_is_returned_whole] arg(1) == nil ==> res(ReadUvarint, 1, 1) == nil && res(CopyN, 1, 1) == nil && res(CopyN, 1, 0) == res(ReadUvarint, 1, 0)
+
+//@ func (hashWriter).Write
+//@   property C17
+//@   modifies auto
+//@   maypanic
+//@   at Write 2
+//@     before[every_byte_goes_to_the_digest_and_to_the_destination] dominatedBy(Write, 1) && res(Write, 1, 1) == nil && arg(0) == p && argOf(Write, 1, 0) == p
+//@   at return 0
+//@     before[a_failed_write_is_reported] res(Write, 1, 1) != nil ==> arg(1) != nil
+
+//@ func (*Store).ExportSnapshot
+//@   property C17
+//@   requires storeInv(cs)
+//@   modifies auto
+//@   maypanic
+//@   at WriteTo 1
+//@     before[header_is_version_1_first_latest_and_the_initial_table] header.Version == 1 && header.FirstInstance == cs.firstInstance && header.LatestInstance == latestInstance
+//@          && header.InitialPowerTable == res(GetPowerTable, 1, 0) && res(GetPowerTable, 1, 1) == nil && argOf(GetPowerTable, 1, 2) == cs.firstInstance
+//@     before[written_through_the_hashing_writer_onto_the_destination] hashWriter.writer == writer && hashWriter.hasher == res(New256, 1, 0)
+//@   at writeSnapshotBlockBytes 1
+//@     before[certificates_first_to_latest_in_order_as_stored] arg(0) == argOf(WriteTo, 1, 1) && argOf(Get, 1, 1) == res(keyForCert, 1) && argOf(keyForCert, 1, 1) == i
+//@          && argOf(NewBuffer, 1, 0) == res(Get, 1, 0) && arg(1) == res(NewBuffer, 1) && res(Get, 1, 1) == nil && i <= latestInstance
+//@   at loopback 1
+//@     before[no_certificate_is_skipped] (prev(i) < 18446744073709551615 ==> i == prev(i) + 1) && res(writeSnapshotBlockBytes, 1, 1) == nil
+//@   at Sum 1
+//@     before[digest_is_over_the_bytes_written] arg(0) == nil && dominatedBy(WriteTo, 1) && res(WriteTo, 1, 1) == nil
+
+//@ func importSnapshotToDatastoreWithTestingPowerTableFrequency
+//@   property C17
+//@   harness harness/snapshot_delta_test.go
+//@   modifies auto
+//@   maypanic
+//@   at OpenOrCreateStore 1
+//@     before[header_agrees_with_the_manifest] m != nil ==> m.InitialInstance == header.FirstInstance
+//@     before[store_created_from_the_header] arg(2) == header.FirstInstance && arg(3) == header.InitialPowerTable
+//@   at Put 1
+//@     before[certificates_are_contiguous_from_the_first_instance_and_within_the_header] i == cert.GPBFTInstance && i <= header.LatestInstance
+//@     before[certificate_bytes_stored_under_their_instance] arg(1) == res(keyForCert, 1) && argOf(keyForCert, 1, 1) == cert.GPBFTInstance && arg(2) == certBytes
+//@   at putPowerTable 1
+//@     before[checkpoint_is_the_verified_table_after_this_certificate] (cert.GPBFTInstance < 18446744073709551615 ==> arg(2) == cert.GPBFTInstance + 1) && arg(3) == res(PowerTableMapToArray, 2)
+//@          && res(checkPowerTable, 1) == nil && argOf(checkPowerTable, 1, 0) == arg(3) && argOf(checkPowerTable, 1, 1) == cert.SupplementalData.PowerTable
+//@   at loopback 1
+//@     before[every_delta_reproduces_the_table_its_certificate_commits_to] ptCid == cert.SupplementalData.PowerTable
+//@          && (len(cert.PowerTableDelta) > 0 ==> ptCid == res(MakePowerTableCID, 3, 0) && res(MakePowerTableCID, 3, 1) == nil && argOf(MakePowerTableCID, 3, 0) == res(PowerTableMapToArray, 1))
+//@          && (len(cert.PowerTableDelta) == 0 ==> ptCid == prev(ptCid))
+//@     before[checkpoints_are_written_with_their_certificate] cert.GPBFTInstance < 18446744073709551615 && (cert.GPBFTInstance + 1) % cs.powerTableFrequency == 0 ==> res(putPowerTable, 1) == nil
+//@     before[instances_are_consecutive] i == prev(i) + 1 || prev(i) == 18446744073709551615
+//@   at writeInstanceNumber 1
+//@     before[latest_pointer_only_for_a_complete_snapshot] latestCert != nil && latestCert.GPBFTInstance == header.LatestInstance && arg(2) == certStoreLatestKey && arg(3) == header.LatestInstance
